@@ -1,6 +1,7 @@
 import Resolvo.Abs.Fail
 import Resolvo.Enc.ReferenceProofs
 import Resolvo.MDet.EncSound
+import Resolvo.MDet.Tracker
 /-!
 # C02 — Unsolvable is reported only when no solution exists, and vice versa
 
@@ -34,6 +35,16 @@ theorem encoder_never_excludes_a_solution (U : Universe) (hU : MDet.WFU U) (P : 
     ∀ c ∈ (MDet.solveRun U P fuel s0).2.clauses.toList, MDet.encoded c.kind = true →
       Sat.evalClause (MDet.muS (MDet.solveRun U P fuel s0).2 sel) (MDet.clauseLits (MDet.solveRun U P fuel s0).2 c) = true :=
   MDet.encoder_sound U hU P fuel s0 sel hv
+
+/-- **The decision tracker of the exact model is consistent after every solve** (`decision_tracker.rs`, `decision_map.rs`;
+    every universe, problem, fuel, solver state, synchronous or asynchronous, whatever the outcome): the assignment map and
+    the decision stack agree entry by entry, no variable is assigned twice, the propagation cursor stays within the stack —
+    so the value `propagate`, `decide` and conflict analysis read for a variable is exactly what the stack records. -/
+theorem decision_tracker_consistent (U : Universe) (P : Problem) (fuel : Nat) (s0 : MDet.S) :
+    MDet.DTInv (MDet.solveRun U P fuel s0).2 ∧
+    ∀ v b, MDet.valueOf (MDet.solveRun U P fuel s0).2 v = some b ↔
+      ∃ d ∈ (MDet.solveRun U P fuel s0).2.stack, d.var = v ∧ d.val = b :=
+  ⟨MDet.solveRun_dtinv U P fuel s0, fun v b => MDet.valueOf_iff (MDet.solveRun_dtinv U P fuel s0) v b⟩
 
 /-- (a) certified Unsolvable -/
 theorem unsat_certified (U : Universe) (P : Problem) (history : List Event) (st : St)
